@@ -581,7 +581,21 @@ func straceCheck(res *corr.Result, model, scratch string) {
 		want := strings.Join(modelCalls(out[i]), " | ")
 		got := strings.Join(j.obs, " | ")
 		if want != got {
-			res.Disagree("strace "+j.spec+" init="+j.init, got, want)
+			// differences that vanish when the ftruncate calls are ignored concern only C07
+			strip := func(l []string) string {
+				var o []string
+				for _, s := range l {
+					if !strings.HasPrefix(s, "ftruncate") {
+						o = append(o, s)
+					}
+				}
+				return strings.Join(o, " | ")
+			}
+			props := []string{"C06", "C07"}
+			if strip(modelCalls(out[i])) == strip(j.obs) {
+				props = []string{"C07"}
+			}
+			res.DisagreeFor(props, "strace "+j.spec+" init="+j.init, got, want)
 		}
 	}
 	res.Distribution["strace-order-checks"] = checked
